@@ -23,6 +23,7 @@ import (
 	"github.com/bluenviron/mediamtx/internal/recorder"
 	"github.com/bluenviron/mediamtx/internal/staticsources"
 	"github.com/bluenviron/mediamtx/internal/stream"
+	"github.com/bluenviron/mediamtx/internal/verifhook"
 )
 
 func emptyTimer() *time.Timer {
@@ -457,6 +458,8 @@ func (pa *path) doReloadConf(newConf *conf.Path) {
 	if newConf.Record && pa.stream != nil && pa.recorder == nil {
 		pa.startRecording()
 	}
+
+	verifhook.Event("path.doReloadConf.done", pa.name, newConf)
 }
 
 func (pa *path) doSourceStaticSetReady(req defs.PathSourceStaticSetReadyReq) {
@@ -974,6 +977,8 @@ func (pa *path) setNotAvailable() {
 		r.Close()
 	}
 
+	verifhook.Point("path.setNotAvailable.afterReaders")
+
 	pa.onUnavailableHook()
 
 	if pa.recorder != nil {
@@ -1039,6 +1044,8 @@ func (pa *path) executeRemoveReader(r defs.Reader) {
 }
 
 func (pa *path) executeRemovePublisher() {
+	verifhook.Point("path.executeRemovePublisher.enter")
+
 	if !pa.conf.AlwaysAvailable {
 		pa.setNotAvailable()
 	} else {
@@ -1084,6 +1091,8 @@ func (pa *path) addReaderPost(req defs.PathAddReaderReq) {
 
 // reloadConf is called by pathManager.
 func (pa *path) reloadConf(newConf *conf.Path) {
+	verifhook.Point("path.reloadConf.enter")
+
 	select {
 	case pa.chReloadConf <- newConf:
 	case <-pa.ctx.Done():
